@@ -257,7 +257,8 @@ macro_rules! vv {
 
 fn renko_out(o: yata::methods::renko::RenkoOutput) -> Out {
 	let len = o.len();
-	let blocks: Vec<_> = o.map(|b| (b.open, b.close, b.volume)).collect();
+	// the output is a lazy iterator and `len` can be astronomically large for tiny brick sizes: keep a prefix
+	let blocks: Vec<_> = o.take(64).map(|b| (b.open, b.close, b.volume)).collect();
 	Out::R(len, blocks)
 }
 
